@@ -527,6 +527,7 @@ class ExpressionParser:
         self.default = default
 
     def __call__(self, expression):
+        source = expression
         m = match_prefix(expression)
         if m is not None:
             prefix = m.group(1)
@@ -537,8 +538,8 @@ class ExpressionParser:
         try:
             factory = self.factories[prefix]
         except KeyError as exc:
-            raise LookupError(
-                "Unknown expression type: %s." % str(exc)
+            raise ExpressionError(
+                "Unknown expression type: %s." % str(exc), source
             )
 
         return factory(expression)
